@@ -80,10 +80,10 @@ def loopItems (lv : String)
   | item :: items, rs =>
     let (vars1, origs) := loopAssign S lv item rs.vars
     match body { rs with vars := vars1 } with
-    | (rs2, .error e) => (rs2, .error e)
+    | (rs2, .error e) => ({ rs2 with vars := loopRestore S origs rs2.vars }, .error e)     -- `finally`: restored on failure too
     | (rs2, .ok r) =>
       match chs rs2 with
-      | (rs3, .error e) => (rs3, .error e)
+      | (rs3, .error e) => ({ rs3 with vars := loopRestore S origs rs3.vars }, .error e)
       | (rs3, .ok cds) =>
         let rs4 := { rs3 with vars := loopRestore S origs rs3.vars }
         if r.jump.isSome then (rs4, .ok { text := r.text, jump := r.jump, dirs := r.dirs ++ cds })
